@@ -100,6 +100,8 @@ def SafeS (f : Nat) : Prop := ∀ (g g' : TEnv) (env : Env) (body : List Expr) (
   EnvOk env g → tyOfSeq g body = .ok (T, g') → isWrong (evalSeq f env body σ).1 = false
 def SafeSt (f : Nat) : Prop := ∀ (g g' : TEnv) (env : Env) (s : Expr) (T : Ty) (σ : St),
   EnvOk env g → tyOfStmt g s = .ok (T, g') → isWrong (evalStmt f env s σ).1 = false
+def SafeO (f : Nat) : Prop := ∀ (g : TEnv) (env : Env) (o : Option Expr) (ot : Option Ty) (σ : St),
+  EnvOk env g → tyOfOpt g o = .ok ot → isWrong (evalOpt f env o σ).1 = false
 def SafeC (f : Nat) : Prop := ∀ (g : TEnv) (env : Env) (v : Val) (cands : List Expr) (ts : List Ty) (σ : St),
   EnvOk env g → tyOfList g cands = .ok ts → isWrong (candGo f env v cands σ).1 = false
 /-- match arms: as long as some remaining arm's run-time test succeeds on the scrutinee, no `wrong` -/
@@ -141,7 +143,7 @@ theorem armKinds_wf (g : TEnv) : ∀ (arms : List Arm) (tys : List Ty), tyOfArms
 def SafeV (f : Nat) : Prop := ∀ (g : TEnv) (env : Env) (e : Expr) (T : Ty) (σ : St),
   EnvOk env g → tyOf g e = .ok T → isWrong (evalStmtValue f env e σ).1 = false
 
-theorem safeE_step (f : Nat) (hE : SafeE f) (hL : SafeL f) (hS : SafeS f) (hA : SafeA f) : SafeE (f + 1) := by
+theorem safeE_step (f : Nat) (hE : SafeE f) (hL : SafeL f) (hS : SafeS f) (hA : SafeA f) (hO : SafeO f) : SafeE (f + 1) := by
   intro g env e T σ henv ht
   have snd : ∀ (g : TEnv) (env : Env) (e : Expr) (T : Ty) (σ σ' : St) (v : Val), EnvOk env g → tyOf g e = .ok T →
       eval f env e σ = (.ok v, σ') → hasTy v T = true ∧ plain v = true := fun g env e T σ σ' v h1 h2 h3 =>
@@ -434,7 +436,76 @@ theorem safeE_step (f : Nat) (hE : SafeE f) (hL : SafeL f) (hS : SafeS f) (hA : 
       have hex := C12.coverage_sound (armKinds arms) v0.asType te (plain_wf_tag pv0) (tyOf_wf g e te hte)
         (armKinds_wf g arms tys htys) s1 s2 tv0 (by simpa using hcov)
       exact hA g env v0 arms tys σ1 henv pv0 htys hex
+  | arrayRepeat a n =>
+    simp only [tyOf] at ht
+    obtain ⟨tv, htv, h2⟩ := bind_ok ht
+    obtain ⟨tn, htn, h3⟩ := bind_ok h2
+    split at h3
+    · cases h3
+    · split at h3
+      · cases h3
+      · rename_i _ hint
+        have e1 := eq_of_eqv_int (by simpa using hint)
+        subst e1
+        simp only [eval]
+        apply safe_bind _ _ _ (hE g env a tv σ henv htv)
+        intro x σ1 ha
+        apply safe_bind _ _ _ (hE g env n .int σ1 henv htn)
+        intro y σ2 hn
+        obtain ⟨hy, py⟩ := snd g env n .int σ1 σ2 y henv htn hn
+        obtain ⟨k, rfl⟩ := int_of_hasTy hy
+        simp only []
+        split <;> simp [throwS, isWrong, pure]
+  | slice a st en sp =>
+    simp only [tyOf] at ht
+    obtain ⟨ta, hta, h2⟩ := bind_ok ht
+    obtain ⟨ts, hts, h3⟩ := bind_ok h2
+    obtain ⟨te, hte, h4⟩ := bind_ok h3
+    obtain ⟨tp, htp, h5⟩ := bind_ok h4
+    simp only [eval]
+    apply safe_bind _ _ _ (hE g env a ta σ henv hta)
+    intro x σ1 ha
+    apply safe_bind _ _ _ (hO g env st ts σ1 henv hts)
+    intro vs σ2 hs1
+    apply safe_bind _ _ _ (hO g env en te σ2 henv hte)
+    intro ve σ3 hs2
+    apply safe_bind _ _ _ (hO g env sp tp σ3 henv htp)
+    intro vp σ4 hs3
+    obtain ⟨hx, px⟩ := snd g env a ta σ σ1 x henv hta ha
+    have r1 := (sound_all f).2.2.2.2.2.2 g env st ts σ1 σ2 vs henv hts hs1
+    have r2 := (sound_all f).2.2.2.2.2.2 g env en te σ2 σ3 ve henv hte hs2
+    have r3 := (sound_all f).2.2.2.2.2.2 g env sp tp σ3 σ4 vp henv htp hs3
+    split at h5
+    · cases h5
+    · split at h5
+      · cases h5
+      · rename_i _ hb
+        have hb' : boundOk ts = true ∧ boundOk te = true ∧ boundOk tp = true := by
+          cases h1 : boundOk ts <;> cases h2 : boundOk te <;> cases h3 : boundOk tp <;> simp_all
+        obtain ⟨i1, e1⟩ := optIdx_ok vs ts r1 hb'.1
+        obtain ⟨i2, e2⟩ := optIdx_ok ve te r2 hb'.2.1
+        obtain ⟨i3, e3⟩ := optIdx_ok vp tp r3 hb'.2.2
+        cases ta with
+        | arr e =>
+          obtain ⟨t1, xs, rfl⟩ := arr_of_hasTy hx
+          simp [liftE, sliceVal, e1, e2, e3, bind, Except.bind, isWrong]
+        | str =>
+          cases x <;> simp [hasTy] at hx
+          simp [liftE, sliceVal, e1, e2, e3, bind, Except.bind, isWrong]
+        | _ => simp only [] at h5; cases h5
   | _ => simp only [tyOf] at ht; cases ht
+
+theorem safeO_step (f : Nat) (hE : SafeE f) : SafeO (f + 1) := by
+  intro g env o ot σ henv ht
+  cases o with
+  | none => simp [evalOpt, isWrong, pure]
+  | some e =>
+    simp only [tyOfOpt] at ht
+    obtain ⟨t, hte, _⟩ := bind_ok ht
+    simp only [evalOpt]
+    apply safe_bind _ _ _ (hE g env e t σ henv hte)
+    intro v σ1 _
+    simp [isWrong, pure]
 
 theorem safeC_step (f : Nat) (hE : SafeE f) (hC : SafeC f) : SafeC (f + 1) := by
   intro g env v cands ts σ henv ht
@@ -560,11 +631,11 @@ theorem safeS_step (f : Nat) (hSt : SafeSt f) (hS : SafeS f) : SafeS (f + 1) := 
     obtain ⟨_, _, henv1⟩ := (sound_all f).2.2.2.1 g g1 env env1 s t1 σ σ1 w henv hp hs
     exact hS g1 g' env1 (s2 :: rest) T σ1 henv1 h2
 
-theorem safe_all : ∀ f : Nat, SafeE f ∧ SafeL f ∧ SafeS f ∧ SafeSt f ∧ SafeV f ∧ SafeC f ∧ SafeA f := by
+theorem safe_all : ∀ f : Nat, SafeE f ∧ SafeL f ∧ SafeS f ∧ SafeSt f ∧ SafeV f ∧ SafeC f ∧ SafeA f ∧ SafeO f := by
   intro f
   induction f with
   | zero =>
-    refine ⟨?_, ?_, ?_, ?_, ?_, ?_, ?_⟩
+    refine ⟨?_, ?_, ?_, ?_, ?_, ?_, ?_, ?_⟩
     · intro g env e T σ _ _; simp [eval, throwS, isWrong]
     · intro g env es Ts σ _ _; simp [evalList, throwS, isWrong]
     · intro g g' env body T σ _ _; simp [evalSeq, throwS, isWrong]
@@ -572,10 +643,11 @@ theorem safe_all : ∀ f : Nat, SafeE f ∧ SafeL f ∧ SafeS f ∧ SafeSt f ∧
     · intro g env e T σ _ _; simp [evalStmtValue, throwS, isWrong]
     · intro g env v cands ts σ _ _; simp [candGo, throwS, isWrong]
     · intro g env v arms tys σ _ _ _ _; simp [evalArms, throwS, isWrong]
+    · intro g env o ot σ _ _; simp [evalOpt, throwS, isWrong]
   | succ f ih =>
-    obtain ⟨hE, hL, hS, hSt, hV, hC, hA⟩ := ih
-    exact ⟨safeE_step f hE hL hS hA, safeL_step f hE hL, safeS_step f hSt hS, safeSt_step f hE hV, safeV_step f hE,
-      safeC_step f hE hC, safeA_step f hE hC hA⟩
+    obtain ⟨hE, hL, hS, hSt, hV, hC, hA, hO⟩ := ih
+    exact ⟨safeE_step f hE hL hS hA hO, safeL_step f hE hL, safeS_step f hSt hS, safeSt_step f hE hV, safeV_step f hE,
+      safeC_step f hE hC, safeA_step f hE hC hA, safeO_step f hE⟩
 
 /-- **progress, first-order fragment**: an expression the checker model types never goes `wrong` - whatever the
     fuel, store and (type-respecting) environment, the evaluator ends in a value, one of the documented run-time errors,
